@@ -4,6 +4,7 @@ import flowpaths.abstractpathmodeldag as pathmodel
 import flowpaths.utils as utils
 import flowpaths.nodeexpandeddigraph as nedg
 import copy
+import math
 
 
 class kLeastAbsErrors(pathmodel.AbstractPathModelDAG):
@@ -223,11 +224,11 @@ class kLeastAbsErrors(pathmodel.AbstractPathModelDAG):
                 self.optimization_options["optimize_with_safety_as_subpath_constraints"] = True
         
         self.flow_attr = flow_attr
-        self.w_max = self.k * self.weight_type(
-            self.G.get_max_flow_value_and_check_non_negative_flow(
-                flow_attr=self.flow_attr, edges_to_ignore=self.edges_to_ignore
-            )
+        max_flow_value = self.G.get_max_flow_value_and_check_non_negative_flow(
+            flow_attr=self.flow_attr, edges_to_ignore=self.edges_to_ignore
         )
+        # (integer weights for fractional data: round the bound up, int() would truncate it, down to 0 for values below 1)
+        self.w_max = self.k * (math.ceil(max_flow_value) if self.weight_type == int else self.weight_type(max_flow_value))
         # (with given weights several of them can pile up on one edge: errors and slacks can reach their sum)
         self.w_max = max(self.w_max, sum(self.solution_weights_superset or [0]))
 
